@@ -33,8 +33,17 @@ type Evidence struct {
 	Violations  int            `json:"violations"`
 }
 
+// OutDir is where evidence and replay files go: /verif, or $VERIF_OUT (used by mutant runs so
+// that a deliberately broken tree never overwrites the committed evidence).
+func OutDir() string {
+	if d := os.Getenv("VERIF_OUT"); d != "" {
+		return d
+	}
+	return VerifDir
+}
+
 func WriteEvidence(e *Evidence) error {
-	dir := filepath.Join(VerifDir, "evidence")
+	dir := filepath.Join(OutDir(), "evidence")
 	if err := os.MkdirAll(dir, 0o755); err != nil {
 		return err
 	}
@@ -142,7 +151,7 @@ func (r *Reporter) Finish() int {
 	if len(r.newV) == 0 {
 		return 0
 	}
-	dir := filepath.Join(VerifDir, "evidence", "replays")
+	dir := filepath.Join(OutDir(), "evidence", "replays")
 	_ = os.MkdirAll(dir, 0o755)
 	sort.Slice(r.newV, func(i, j int) bool { return r.newV[i].Key < r.newV[j].Key })
 	for i, v := range r.newV {
